@@ -765,23 +765,6 @@ pub fn c18(t: &dyn TypeOps, cx: &mut Cx) {
     if cx.type_id == "()" { c18_rendering(cx); }
     let ty = t.ty();
     let n = build(t, cx);
-    // a schema of more than 2^16 rows (a long sequence of deep-copy items, or of many blocks):
-    // still the whole forest (every 4th type in the quick tier)
-    if cx.tier == Tier::Thorough || hash64(&[cx.type_id.as_bytes()]) % 4 == 0 {
-        let k = crate::dom::REPEAT | 24_000;
-        if let Some(i) = first_growing(t, n, k) {
-            if let Out::Ok(so) = t.ser_schema_scaled(i, k) {
-                if so.rows.len() > (1 << 16) {
-                    cx.evals += 1;
-                    cx.transitions += so.rows.len() as u64;
-                    cx.count("schemas_of_more_than_65536_rows", 1);
-                    let bad = schema_forest(&so.rows, &so.bytes, 0);
-                    cx.outcome(if bad.is_empty() { "large-schema-ok" } else { "large-schema-bad" });
-                    for (c, d) in bad.into_iter().take(4) { cx.violate(&format!("large-schema-{}", c), json!({"value_index": i, "rows": so.rows.len(), "observed": d})); }
-                }
-            }
-        }
-    }
     for i in 0..n {
         let want = t.val(i);
         let plain = match t.ser(i) { Out::Ok((b, _)) => b, _ => { cx.outcome("skipped-unserializable"); continue; } };
